@@ -130,7 +130,7 @@ def sym_spsolve(A, b):
         out = _np.empty(n, dtype=object)
         out[...] = 0.0
         return out
-    xn = _x_names(n, k - getattr(CTX, "sys_base", 0))
+    xn = _x_names(n, k)
     rec["xnames"] = xn
     x = _np.array([Sym(z3.Real(nm)) for nm in xn], dtype=object)
     xf = getattr(CTX, "x_xform", None)
@@ -172,23 +172,27 @@ def _x_names(n, k):
         return ['x%s%d_%d' % (tag, k, i) for i in range(n)]
     nn, bn = names
     heat = getattr(CTX, "cur_heat", False)
+    # stage-relative name: dxh<i> for the i-th hydraulic system of this pipeflow call, dxt<i> thermal
+    base = getattr(CTX, "sys_base", 0)
+    i = sum(1 for s_ in CTX.systems[base:] if bool(s_.get("heat")) == bool(heat))
+    pre = "dx%s%s%d" % ("t" if heat else "h", tag, i)
     out = []
     if n == len(nn) + len(bn) and heat:
-        out = ["dx%s%d[T|%s]" % (tag, k, a) for a in nn] + ["dx%s%d[Tout|%s]" % (tag, k, a) for a in bn]
+        out = ["%s[T|%s]" % (pre, a) for a in nn] + ["%s[Tout|%s]" % (pre, a) for a in bn]
     elif n >= len(nn) + len(bn):
-        out = ["dx%s%d[p|%s]" % (tag, k, a) for a in nn] + ["dx%s%d[m|%s]" % (tag, k, a) for a in bn]
+        out = ["%s[p|%s]" % (pre, a) for a in nn] + ["%s[m|%s]" % (pre, a) for a in bn]
         try:
             from pandapipes.idx_node import NODE_TYPE, P
             npit = net["_active_pit"]["node"]
-            sl = [i for i in range(len(npit)) if npit[i, NODE_TYPE] == P]
+            sl = [j for j in range(len(npit)) if npit[j, NODE_TYPE] == P]
         except Exception:
             sl = []
         if len(sl) == n - len(out):
-            out += ["dx%s%d[msl|%s]" % (tag, k, nn[i]) for i in sl]
+            out += ["%s[msl|%s]" % (pre, nn[j]) for j in sl]
         else:
-            out += ["dx%s%d[msl|#%d]" % (tag, k, i) for i in range(n - len(out))]
+            out += ["%s[msl|#%d]" % (pre, j) for j in range(n - len(out))]
     else:
-        out = ['x%s%d_%d' % (tag, k, i) for i in range(n)]
+        out = ['x%s%d_%d' % (tag, k, j) for j in range(n)]
     return out
 
 
